@@ -101,6 +101,9 @@ def classify(spec, batch, cases, results, report):
         report.evaluations += 1
         report.count("op:" + c.op)
         why = None
+        if r["err"] and r["panic"] is not None and r["err"].startswith("model: short"):
+            # the implementation panicked or hung, so there is no output for the model's oracles to read: the panic is the finding
+            r["err"] = None
         if r["err"]:
             report.errors.append((c, r, r["err"]))
             continue
